@@ -534,10 +534,11 @@ impl DrawExecutor {
                     intersections += 1;
 
                     // Add X value for this vector to edge buffer
+                    // the product of two coordinate differences does not fit into i32 for coordinates of a few 10^4
                     if dx < 0 {
-                        edge_buffer.push(((dy2 * dx / dy + 1) >> 1) + x2);
+                        edge_buffer.push(((dy2 as i64 * dx as i64 / dy as i64 + 1) >> 1) as i32 + x2);
                     } else {
-                        edge_buffer.push(((dy1 * dx / dy + 1) >> 1) + x1);
+                        edge_buffer.push(((dy1 as i64 * dx as i64 / dy as i64 + 1) >> 1) as i32 + x1);
                     }
                 }
             }
